@@ -74,6 +74,7 @@ def run(ctx: Ctx) -> None:
     T.t_a2b(ctx, "1b/T.A2b")
     T.t_r1(ctx, "2/T.R1")
     T.t_s1(ctx, "3/T.S1")
+    T.t_s1c(ctx, "3c/T.S1c")
     T.t_e1(ctx, "4/T.E1")
     run_callers(ctx, "5")
     N.should_rerun_table(ctx, "6")
